@@ -8,7 +8,9 @@ use zarrs::array::{ArrayBuilder, ArraySubset};
 use zarrs::group::GroupBuilder;
 use zarrs::storage::{ReadableWritableListableStorage, ReadableWritableListableStorageTraits};
 
-use super::common::{Chunk, SampleBuffer, SampleBufferValue, value_to_zarr_coord_params};
+use super::common::{
+    Chunk, SampleBuffer, SampleBufferValue, event_counts, value_to_zarr_coord_params,
+};
 use super::create_arrays;
 use crate::storage::{ChainStorage, StorageConfig, TraceStorage};
 use crate::{Math, Progress, Settings};
@@ -235,17 +237,7 @@ impl ChainStorage for ZarrChainStorage {
     ) -> Result<()> {
         let is_first_draw = self.last_sample_was_warmup && !info.tuning;
         if is_first_draw {
-            {
-                let mut seen = std::collections::HashSet::new();
-                for (field, dim) in &self.event_dim_of_stat {
-                    if seen.insert(dim.as_str()) {
-                        if let Some(buf) = self.stats_buffers.get(field.as_str()) {
-                            self.warmup_event_counts
-                                .insert(dim.clone(), buf.total_pushed());
-                        }
-                    }
-                }
-            }
+            self.warmup_event_counts = event_counts(&self.event_dim_of_stat, &self.stats_buffers);
             for (key, buffer) in self.draw_buffers.iter_mut() {
                 if let Some(chunk) = buffer.reset() {
                     store_zarr_chunk(&self.arrays.warmup_draw_arrays[key], chunk, self.chain)?;
@@ -276,15 +268,7 @@ impl ChainStorage for ZarrChainStorage {
 
     /// Flush remaining samples and finalize storage
     fn finalize(self) -> Result<Self::Finalized> {
-        let mut seen = std::collections::HashSet::new();
-        let mut sample_counts: HashMap<String, u64> = HashMap::new();
-        for (field, dim) in &self.event_dim_of_stat {
-            if seen.insert(dim.as_str()) {
-                if let Some(buf) = self.stats_buffers.get(field.as_str()) {
-                    sample_counts.insert(dim.clone(), buf.total_pushed());
-                }
-            }
-        }
+        let sample_counts = event_counts(&self.event_dim_of_stat, &self.stats_buffers);
 
         for (key, mut buffer) in self.draw_buffers.into_iter() {
             if let Some(chunk) = buffer.reset() {
@@ -326,23 +310,17 @@ impl ChainStorage for ZarrChainStorage {
     }
 
     fn inspect(&self) -> Result<Option<Self::Finalized>> {
-        let mut seen = std::collections::HashSet::new();
-        let mut counts = HashMap::new();
-        for (field, dim) in &self.event_dim_of_stat {
-            if seen.insert(dim.as_str()) {
-                let s = self
-                    .stats_buffers
-                    .get(field.as_str())
-                    .map(|b| b.total_pushed())
-                    .unwrap_or(0);
+        let counts = event_counts(&self.event_dim_of_stat, &self.stats_buffers)
+            .into_iter()
+            .map(|(dim, s)| {
                 let w = self
                     .warmup_event_counts
                     .get(dim.as_str())
                     .copied()
                     .unwrap_or(0);
-                counts.insert(dim.clone(), (w, s));
-            }
-        }
+                (dim, (w, s))
+            })
+            .collect();
         Ok(Some(counts))
     }
 
